@@ -42,6 +42,12 @@ def translate():
         rep = json.loads(out[out.index('{'):])
     except Exception:
         rep = {'ok': False, 'failures': [{'kernel': '*', 'reason': (err or out)[-800:]}]}
+    rc2, out2, err2 = sh([PY, os.path.join(VERIF, 'tools/py2v/inventory.py'), REPO, os.path.join(COQ, 'Gen')], timeout=300)
+    try:
+        rep['inventory'] = json.loads(out2[out2.index('{'):])
+    except Exception:
+        rep.setdefault('failures', []).append({'kernel': 'inventory', 'file': 'tools/py2v/inventory.py', 'fn': 'scan', 'reason': (err2 or out2)[-800:]})
+        rep['ok'] = False
     return rep
 
 # ------------------------------------------------------------------------------------------------
